@@ -174,6 +174,41 @@ class ExtenderOracles(WalkOracles):
     len_offset = 0
 
 
+class _Probe:
+    """a throw-away report: what would the table say?"""
+    tier = "quick"
+
+    def __init__(self):
+        self.evaluations = 0
+        self.res = []
+
+    def holds(self, *a, **k):
+        self.res.append("holds")
+
+    def violated(self, *a, **k):
+        self.res.append("violated")
+
+    def inconclusive(self, *a, **k):
+        self.res.append("inconclusive")
+
+    def floor(self, *a, **k):
+        pass
+
+
+def chain_status(F, graph_route):
+    cache = getattr(F, "_chain_status", None)
+    if cache is None:
+        cache = F._chain_status = {}
+    if graph_route not in cache:
+        pr = _Probe()
+        try:
+            (graph_chain_table if graph_route else kmer_chain_table)(F, pr, "probe")
+        except Exception:
+            pr.res.append("inconclusive")
+        cache[graph_route] = "violated" if "violated" in pr.res else ("inconclusive" if ("inconclusive" in pr.res or not pr.res) else "holds")
+    return cache[graph_route]
+
+
 def extender_table(F, rep, rule, graph_route):
     """the growth loop: typestate of the availability set, advance of (current, dir), path contents, exit only on Terminal"""
     suffix = "compression::ExtModeNode" if graph_route else "compression::ExtMode"
@@ -192,6 +227,7 @@ def extender_table(F, rep, rule, graph_route):
     adt_path = C.adt_name(F, body["locals"][1])
     key0 = "%s-extender(%s)" % ("graph" if graph_route else "kmer", body["path"].split("::")[-1])
     problems = []
+    avail_problems = []
     n_rows = 0
     for start in (LEFT, RIGHT):
         def mk(script):
@@ -243,8 +279,8 @@ def extender_table(F, rep, rule, graph_route):
                 elems = list(pv.elems) if isinstance(pv, VecV) else None
                 ev = ex.fields[0] if isinstance(ex, Adt) and ex.name == EXTS else None
                 if "seed" not in h.removed:
-                    problems.append(("a seed without extensions is returned without being removed from the availability set", row))
-                elif elems is None or len(elems) != 0:
+                    avail_problems.append(("a seed without extensions is returned without being removed from the availability set", row))
+                if elems is None or len(elems) != 0:
                     problems.append(("for a seed without extensions the walk returns early and leaves %s stale entr%s of the previous walk in the shared path "
                                      "buffer: the node builder appends them to this node" % (len(elems) if elems is not None else "?", "y" if elems and len(elems) == 1 else "ies"), row))
                 elif not (isinstance(ev, Int) and ev.is_conc() and ev.val == 0):
@@ -258,16 +294,16 @@ def extender_table(F, rep, rule, graph_route):
                 need = ["seed"] + ["p%d" % j for j in range(i)]
                 missing = [x for x in need if x not in c[2]]
                 if missing:
-                    problems.append(("when the step function is consulted for the %s element, %s %s already placed but still marked available "
-                                     "(a placed element that stays available can be entered again)" % (
-                                         ["first", "second", "third"][i], missing, "is" if len(missing) == 1 else "are"), row))
+                    avail_problems.append(("when the step function is consulted for the %s element, %s %s already placed but still marked available "
+                                           "(a placed element that stays available can be entered again)" % (
+                                               ["first", "second", "third"][i], missing, "is" if len(missing) == 1 else "are"), row))
                     break
-            else:
+            if True:
                 # after the loop everything placed is removed
                 need = ["seed"] + ["p%d" % j for j in range(nu)]
                 missing = [x for x in need if x not in h.removed]
                 if missing:
-                    problems.append(("%s placed but never removed from the availability set" % missing, row))
+                    avail_problems.append(("%s placed but never removed from the availability set" % missing, row))
                 # path contents
                 elems = list(pv.elems) if isinstance(pv, VecV) else None
                 if elems is None or len(elems) != nu:
@@ -315,7 +351,20 @@ def extender_table(F, rep, rule, graph_route):
                     problems.append(("on a walk that already holds %d elements, %s %s taken out of the availability set but not placed in the path: "
                                      "no node will ever contain %s" % (off, lost, "is" if len(lost) == 1 else "are", "it" if len(lost) == 1 else "them"), row))
                 elif kept:
-                    problems.append(("on a walk that already holds %d elements, %s placed in the path but left available (a second node can take it again)" % (off, kept), row))
+                    avail_problems.append(("on a walk that already holds %d elements, %s placed in the path but left available (a second node can take it again)" % (off, kept), row))
+    # WHO takes a placed element out of the availability set, and when, is private to the three functions of the route (the growth function
+    # here; the step function or the node builder after a refactoring): this table only sees the growth function's share.  What must hold —
+    # no walk ever enters an element that is already placed — is decided end to end by the chain table of the route (rings and hairpins are
+    # where it matters).  The observations made here count only if that table does not hold.
+    if avail_problems and not problems:
+        st = chain_status(F, graph_route)
+        msg, row = avail_problems[0]
+        if st == "violated":
+            problems.append((msg, row))
+        elif st != "holds":
+            rep.inconclusive(rule, key0 + "/availability", "%s growth loop (%s): %s — and the end-to-end table of the route is not conclusive  [scripted steps %s]" % (
+                label, body["path"].split("::")[-1], msg, row))
+            return body
     if problems:
         msg, row = problems[0]
         rep.violated(rule, key0, "%s growth loop (%s): %s  [scripted steps %s]" % (label, body["path"].split("::")[-1], msg, row),
@@ -714,7 +763,13 @@ class ChainOracles(WalkOracles):
             for x in self.line:
                 if x != "seed":
                     self.fwd[x] = True if self.stranded else self.choose("fwd_" + x, (True, False))
-            self.ends = (self.choose("lend", (0, 2)), self.choose("rend", (0, 2)))
+            # the line may be closed into a ring (an isolated cycle: it is cut at the seed); otherwise each end is open (no extension leaves
+            # it), branching (two leave it) or — unstranded only — a hairpin: its one extension leads back into the same element through the
+            # same side (the element's reverse complement follows it).  Rings and hairpins are where a walk meets an element it has already
+            # placed: whoever is responsible for taking placed elements out of the availability set must have done so by then.
+            self.ring = len(self.line) >= 2 and self.choose("ring", (False, True))
+            kinds = (0, 2) if self.stranded else (0, 2, "hp")
+            self.ends = (0, 0) if self.ring else (self.choose("lend", kinds), self.choose("rend", kinds))
         return self.line
 
     # ---- geometry
@@ -726,7 +781,21 @@ class ChainOracles(WalkOracles):
         line = self.setup()
         line_side = stored_side if self.fwd[x] else flip(stored_side)
         i = line.index(x) + (1 if line_side == RIGHT else -1)
-        return line[i] if 0 <= i < len(line) else None
+        if self.ring:
+            return line[i % len(line)]
+        if 0 <= i < len(line):
+            return line[i]
+        if self.ends[0 if line_side == LEFT else 1] == "hp":
+            return x
+        return None
+
+    def is_hairpin(self, x, stored_side):
+        line = self.setup()
+        if self.ring:
+            return False
+        line_side = stored_side if self.fwd[x] else flip(stored_side)
+        i = line.index(x) + (1 if line_side == RIGHT else -1)
+        return not (0 <= i < len(line)) and self.ends[0 if line_side == LEFT else 1] == "hp"
 
     def exts_byte(self, x):
         line = self.setup()
@@ -740,6 +809,39 @@ class ChainOracles(WalkOracles):
             for b in bases:
                 m |= 1 << (b + (4 if sd == RIGHT else 0))
         return m
+
+    def end_bits(self, x, line_side):
+        """the extensions leaving element x on the given side of the line, as they appear on that side of the merged node"""
+        sd = self.stored_side(x, line_side)
+        bits = (self.exts_byte(x) >> (4 if sd == RIGHT else 0)) & 0xF
+        return bits if self.fwd[x] else _rev4(bits)
+
+    def expectations(self):
+        """[(node path left to right, ordered join pairs that must be asked)] — every acceptable outcome — and the set of pairs that may be asked"""
+        line = self.setup()
+        i0 = line.index("seed")
+        allowed = set()
+        n = len(line)
+        for i in range(n):
+            for j in ((i - 1, i + 1)):
+                if self.ring:
+                    allowed.add(((line[i],), (line[j % n],)))
+                elif 0 <= j < n:
+                    allowed.add(((line[i],), (line[j],)))
+            allowed.add(((line[i],), (line[i],)))
+        if not self.ring:
+            joins = set()
+            for i in range(i0, 0, -1):
+                joins.add(((line[i],), (line[i - 1],)))
+            for i in range(i0, n - 1):
+                joins.add(((line[i],), (line[i + 1],)))
+            return [(list(line), joins)], allowed
+        # a ring is cut at the seed: the walk that goes first takes everything
+        left_first = line[i0 + 1:] + line[:i0] + ["seed"]           # ... l1 l0 seed, read left to right, after wrapping
+        right_first = ["seed"] + line[i0 + 1:] + line[:i0]
+        jl = {((left_first[i],), (left_first[i - 1],)) for i in range(n - 1, 0, -1)}
+        jr = {((right_first[i],), (right_first[i + 1],)) for i in range(n - 1)}
+        return [(left_first, jl), (right_first, jr)], allowed
 
     def on_call(self, it, fn, args, dest_ty, term, caller):
         path = fn.get("path", "")
@@ -795,6 +897,9 @@ class ChainOracles(WalkOracles):
             y = self.neighbour(x, d)
             if y is None:
                 return none()
+            if self.is_hairpin(x, d):
+                # the element's reverse complement follows it: the link arrives at the same side it left from
+                return some(Tup([Int(64, False, bits=[TOP] * 64, tags=frozenset({"id:" + x})), dir_v(d), mkbool(True)]))
             line_side = d if self.fwd[x] else flip(d)          # the side of the line the walk moves to
             s_in = self.stored_side(y, flip(line_side))
             return some(Tup([Int(64, False, bits=[TOP] * 64, tags=frozenset({"id:" + y})), dir_v(s_in), mkbool(s_in == d)]))
@@ -867,18 +972,15 @@ def graph_chain_table(F, rep, rule):
                 problems.append(("the builder diverges: %s" % out[1], row))
                 continue
             line = h.setup()
-            want_path = [(x, LEFT if h.fwd[x] else RIGHT) for x in line]
-            if h.seq_path != want_path:
-                problems.append(("the node path handed to sequence_of_path is %s; the line is %s ((node, Left = as stored))" % (h.seq_path, want_path), row))
+            outcomes, allowed = h.expectations()
+            match = [(pth, jn) for (pth, jn) in outcomes if h.seq_path == [(x, LEFT if h.fwd[x] else RIGHT) for x in pth]]
+            if not match:
+                problems.append(("the node path handed to sequence_of_path is %s; the %s is %s ((node, Left = as stored))" % (
+                    h.seq_path, "ring, cut at the seed," if h.ring else "line", " or ".join(str([(x, LEFT if h.fwd[x] else RIGHT) for x in pth]) for pth, _ in outcomes)), row))
                 continue
-            i0 = line.index("seed")
-            want_joins = set()
-            for i in range(i0, 0, -1):
-                want_joins.add(((line[i],), (line[i - 1],)))
-            for i in range(i0, len(line) - 1):
-                want_joins.add(((line[i],), (line[i + 1],)))
-            if set(h.joins) != want_joins:
-                bad = [j for j in h.joins if j not in want_joins] or [j for j in want_joins if j not in h.joins]
+            npth, want_joins = match[0]
+            if not (want_joins <= set(h.joins) <= (want_joins | allowed)) or (not h.ring and "hp" not in h.ends and set(h.joins) != want_joins):
+                bad = [j for j in h.joins if j not in (want_joins | allowed)] or [j for j in want_joins if j not in h.joins] or [j for j in h.joins if j not in want_joins]
                 problems.append(("the join predicate is asked about the payload pairs %s; required: once per link of the line, (payload of the node the walk stands on, "
                                  "payload of the node it wants to enter) = %s — first difference %s" % (h.joins, sorted(want_joins), bad[0]), row))
                 continue
@@ -894,10 +996,7 @@ def graph_chain_table(F, rep, rule):
                 problems.append(("nodes %s are taken out of the availability set; the merged node consists of %s" % (sorted(set(h.removed), key=str), sorted(line)), row))
                 continue
             ev = ex.fields[0] if isinstance(ex, Adt) and ex.name == EXTS else None
-            lx, rx = line[0], line[-1]
-            lbits = (0b0011 if h.ends[0] == 2 else 0)
-            rbits = (0b0011 if h.ends[1] == 2 else 0)
-            want = (lbits if h.fwd[lx] else _rev4(lbits)) | ((rbits if h.fwd[rx] else _rev4(rbits)) << 4)
+            want = h.end_bits(npth[0], LEFT) | (h.end_bits(npth[-1], RIGHT) << 4)
             if not (isinstance(ev, Int) and ev.is_conc()):
                 rep.inconclusive(rule, key0 + "/row%d" % rows, "graph route on a scripted line: the merged node's extensions could not be evaluated (%r)" % (ev,))
                 return
@@ -955,6 +1054,8 @@ class KmerChainOracles(ChainOracles):
                     and (self.exts_byte(kid(k)[0]) >> (b + (4 if d == RIGHT else 0))) & 1:
                 x = kid(k)[0]
                 y = self.neighbour(x, d)
+                if y is not None and self.is_hairpin(x, d):
+                    return Opaque("K", {"kmer"}, {"k": x, "rc": True})      # the k-mer's own reverse complement follows it
                 if y is not None:
                     # the neighbour as reached from x: its stored key, reverse-complemented when the two are stored in opposite orientations
                     return Opaque("K", {"kmer"}, {"k": y, "rc": self.fwd[x] != self.fwd[y]})
@@ -1023,28 +1124,26 @@ def kmer_chain_table(F, rep, rule):
                 continue
             r, dq = out
             line = h.setup()
-            i0 = line.index("seed")
-            want_seq = []
-            for x in line[:i0]:
-                want_seq.append(norm_base(x, not h.fwd[x], 0, K))
-            for i in range(K):
-                want_seq.append(norm_base("seed", False, i, K))
-            for x in line[i0 + 1:]:
-                want_seq.append(norm_base(x, not h.fwd[x], K - 1, K))
+            outcomes, allowed = h.expectations()
+
+            def spelled(pth):
+                j0 = pth.index("seed")
+                w_ = [norm_base(x, not h.fwd[x], 0, K) for x in pth[:j0]]
+                w_ += [norm_base("seed", False, i, K) for i in range(K)]
+                w_ += [norm_base(x, not h.fwd[x], K - 1, K) for x in pth[j0 + 1:]]
+                return w_
             got_seq = [base_tag(e) for e in dq.elems] if isinstance(dq, DequeV) else None
             if got_seq is None or any(x is None for x in got_seq):
                 rep.inconclusive(rule, key0 + "/row%d" % rows, "k-mer route on a scripted line: a base of the assembled sequence could not be traced to a k-mer position (%s)" % (got_seq,))
                 return
-            if got_seq != want_seq:
-                problems.append(("the assembled node sequence is %s; the line spells %s (b:<k-mer>:<stored position>:<complemented>)" % (got_seq, want_seq), row))
+            match = [(pth, jn) for (pth, jn) in outcomes if got_seq == spelled(pth)]
+            if not match:
+                problems.append(("the assembled node sequence is %s; the %s spells %s (b:<k-mer>:<stored position>:<complemented>)" % (
+                    got_seq, "ring, cut at the seed," if h.ring else "line", " or ".join(str(spelled(pth)) for pth, _ in outcomes)), row))
                 continue
-            want_joins = set()
-            for i in range(i0, 0, -1):
-                want_joins.add(((line[i],), (line[i - 1],)))
-            for i in range(i0, len(line) - 1):
-                want_joins.add(((line[i],), (line[i + 1],)))
-            if set(h.joins) != want_joins:
-                bad = [j for j in h.joins if j not in want_joins] or [j for j in want_joins if j not in h.joins]
+            npth, want_joins = match[0]
+            if not (want_joins <= set(h.joins) <= (want_joins | allowed)) or (not h.ring and "hp" not in h.ends and set(h.joins) != want_joins):
+                bad = [j for j in h.joins if j not in (want_joins | allowed)] or [j for j in want_joins if j not in h.joins] or [j for j in h.joins if j not in want_joins]
                 problems.append(("the join predicate is asked about the payload pairs %s; required: once per link of the line, (payload of the k-mer the walk stands on, "
                                  "payload of the k-mer it wants to enter) = %s — first difference %s" % (h.joins, sorted(want_joins), bad[0]), row))
                 continue
@@ -1060,10 +1159,7 @@ def kmer_chain_table(F, rep, rule):
                 problems.append(("k-mers %s are taken out of the availability set; the node consists of %s" % (sorted(set(h.removed), key=str), sorted(line)), row))
                 continue
             ev = ex.fields[0] if isinstance(ex, Adt) and ex.name == EXTS else None
-            lx, rx = line[0], line[-1]
-            lbits = (0b0011 if h.ends[0] == 2 else 0)
-            rbits = (0b0011 if h.ends[1] == 2 else 0)
-            want = (lbits if h.fwd[lx] else _rev4(lbits)) | ((rbits if h.fwd[rx] else _rev4(rbits)) << 4)
+            want = h.end_bits(npth[0], LEFT) | (h.end_bits(npth[-1], RIGHT) << 4)
             if not (isinstance(ev, Int) and ev.is_conc()):
                 rep.inconclusive(rule, key0 + "/row%d" % rows, "k-mer route on a scripted line: the node's extensions could not be evaluated (%r)" % (ev,))
                 return
@@ -1139,6 +1235,15 @@ class DriverOracles(WalkOracles):
                 return Adt(adt, 0, [nxt, dir_v(d), exts_sym("q")])
             return Adt(adt, 1, [exts_sym("final")])
         if p == self.builder_path or path == self.builder_path:
+            # this table scripts the node builder through its interface (self, seed[, buffers]) -> (…, extensions, …, payload) and judges what the
+            # DRIVER does with the result; a builder with another interface (one that adds the node to the output itself, say) is a different
+            # private protocol, which only the end-to-end tables can follow
+            bb = it.facts.fns.get(self.builder_path) or {}
+            rt = it.facts.ty(bb["locals"][0]) if bb.get("locals") else {}
+            want_shape = (2, 4) if self.graph_route else (4, 2)
+            if bb and (bb.get("argc") != want_shape[0] or rt.get("k") != "tuple" or len(rt.get("ts") or []) != want_shape[1]):
+                raise Undecided("the node builder's interface is not (%s) -> %d-tuple: the driver table cannot script it" % (
+                    "self, seed" if self.graph_route else "self, seed, path buffer, sequence buffer", want_shape[1]))
             me = args[0]
             comp = it.read(me.cell, me.path)
             i = self.conc(args[1])
